@@ -60,6 +60,14 @@ _w("C03", 25, 600,
 _w("C05", 25, 600,
    "each case = (1-4 records under one node ID in a tape-chosen lookup order, records under another node ID, a record without node ID, an unregistered key) x (claimed key) x (nonce signer: claimed key, another registered key, unregistered key, none, forged) x (client state absent/present, signer drawn independently) x (node-ID hint absent/matching/foreign/unknown) x (storage is/is not a NodeIdLoader) x (local skip-verification). Non-trivial: all; distinct by (lookup path, signer classes, scope size, first index of the lookup order).",
    ["LoadByNodeId is implemented by simstore over the real back end so that result order and multiplicity are tape choices"])
+_w("C01", 30, 900,
+   "each run is an interleaved history (6-40 ops) of operator actions (authorize, create token, remove node, set/unset the registration wrapper, clock jumps across token expiry) and well-signed fetch requests assembled from {registered/unregistered/fresh certificate key} x {own/other/fresh encryption key} x {own/other/fresh nonce, live/used/expired/fabricated token, garbage} x {no wrapped info, sealed by the server's / a foreign wrapper, sealed for another nonce or key, re-wrapped by the registered intermediate, under an unregistered or wrong key ID, for another nonce, garbage, short ciphertext}; altered requests are re-signed with the matching private key. Non-trivial: every fetch except the plain honest one; distinct by (request class, model verdict, outcome, wrapper configured, token live).",
+   ["reference model: issue is allowed iff (a) record with same nonce and encryption key, (b) live token and no record for the key, (c) registration info sealed by the configured wrapper / re-sealed by a currently registered node and matching nonce and certificate key; on a store-once back end (c) builds the response from the existing record",
+    "liveness of authorized requests is not asserted here (C04 owns it); probe counters show how often credentials were issued"])
+_w("C06", 25, 600,
+   "each run is a history (4-25 ops) over 1-4 tokens: create (with/without state), use by one of three node keys (fresh, re-use, key that already has a record), clock jumps to age = max-2ns..max+2ns or far, and tampering with the stored record while keeping it sealed (clear creation_time moved later; sealed creation time of a newer token transplanted; one bit of the sealed blob flipped); max lifetime 1ns..3y; storage wrapper on/off; all three back ends. Non-trivial: every use after another operation; distinct by (model liveness, key registered, tamper kind, expired, on-boundary, wrapper, back end).",
+   ["'age exceeds max' is strict: at age == max either outcome is accepted; a token is considered consumed by any attempt that reached it while live",
+    "removing the sealing (clearing wrapping_key_id) is outside the tamper space: unsealed records are deliberately loadable (suite case valid-no-store-wrapping)"])
 
 HOOK_COMMITS = ["54f90f1 (H2: net/splitlistener.go scheduling points + net/verif_hook_{on,off}.go)",
                 "c914c74 (H1: protocol/dialer.go SimDial seam + protocol/verif_hook_{on,off}.go)"]
@@ -70,6 +78,8 @@ NOT_APPLICABLE["C20"] = ("pure function of its arguments (BreakIntoNextProtos/Co
                          "its failure modes are reached by the simulated workloads of C14 (malformed entries in a hostile ClientHello) and C07/C16 (honest payloads needing >99 chunks)")
 
 LEVEL_TEXT = {
+    "C01": "seeded exploration of operator/request histories against an executable authorization model; every issued response is additionally opened with every key the harness holds to check it is bound to the requester.",
+    "C06": "seeded exploration of token histories with clock jumps to the expiry boundary and sealed-record tampering against a token-liveness model; stored bytes are scanned for token material.",
     "C08": "seeded exploration of stored-state orderings and rotation histories on the fake clock against an executable decision table written from the statement, with exact post-conditions (windows, overlap, durability, no-op identity).",
     "C03": "seeded exploration of wire corruptions x clock placements x skew configurations against the acceptance predicate of the statement; refusals are required to be storage-silent.",
     "C05": "seeded exploration of lookup-result orderings and signer choices against a reference predicate (exists record in scope verifying nonce and state).",
